@@ -66,6 +66,9 @@ class Verifier:
             if ann.startswith('class:'):
                 env[pname] = SClass(self.repo.resolve(ann[6:]))
                 continue
+            if ann == 'any_rule':
+                # self of a rule's method: an instance of the class that owns the function
+                ann = 'ref:' + info.owner.qualname
             v = ex.C.fresh_by_annotation(ann, st, pname)
             env[pname] = v
         self.free_env = {}
